@@ -101,6 +101,8 @@ StrLeaves == <<
   D("S-ia5-AB", TStr("IA5", CNone, <<65, 66>>)),
   D("S-ia5-AD-2", TStr("IA5", R(2, 2), <<65, 66, 67, 68>>)),
   D("S-ia5-dig", TStr("IA5", R(0, 5), <<48, 49, 50, 51, 52, 53, 54, 55, 56, 57>>)),
+  D("S-ia5-09P", TStr("IA5", R(1, 4), <<48, 49, 50, 51, 52, 53, 54, 55, 56, 57, 80>>)),
+  D("S-prt-hexp", TStr("Printable", CNone, <<48, 49, 57, 97, 102, 112>>)),
   D("S-vis", TStr("Visible", CNone, <<>>)),
   D("S-vis-5", TStr("Visible", R(5, 5), <<>>)),
   D("S-vis-az", TStr("Visible", R(1, 3), <<97, 98, 99, 120, 121, 122>>)),
